@@ -30,6 +30,10 @@ func VerifH_C08_DeferredRaces() {
 	if vChoose("started", 2) == 1 {
 		vAssert("seed-put", dw.Put(context.Background(), first.c.KeyString(), first.data) == nil)
 	}
+	if vChoose("onceListener", 2) == 1 {
+		// a once-only OnPut listener registered beforehand: Put itself removes it
+		dw.OnPut(func(int) {}, true)
+	}
 	b1 := vBlk{vCidT("b1"), []byte{1}}
 	b2 := vBlk{vCidT("b2"), []byte{2}}
 	if vChoose("sameBlock", 2) == 1 {
